@@ -109,4 +109,7 @@ func EvTick() *Event { return &Event{K: "tick", Name: "tick"} }
 
 func EvWindowCloses() *Event { return &Event{K: "window-closes", Name: "session-window-closes"} }
 
+// EvResetTime: the clock crosses the configured ResetSeqTime between two ticks of the run loop.
+func EvResetTime() *Event { return &Event{K: "reset-time", Name: "reset-time-passes"} }
+
 func EvSecondConnect() *Event { return &Event{K: "connect2", Name: "second-connect"} }
